@@ -181,10 +181,10 @@ Definition check (s : sx) : Z :=
                 list_eqb t5_eqb results (expected_results (Z.to_nat n) 0)) true
       | _, _ => code_decode_error
       end
-  | SL [SZ 2; acc; m; ct; ce; dec; sb; ast; impl] =>
-      match dL d_mtype acc, dStr m, dStr ct, dStr ce, dOpt dStr dec, d_sb sb, dOpt d_ast ast with
-      | Some acc, Some m, Some ct, Some ce, Some dec, Some sb, Some ast =>
-          let r := mkHReq m ct ce [] in
+  | SL [SZ 2; acc; m; ct; ce; dec; berr; sb; ast; impl] =>
+      match dL d_mtype acc, dStr m, dStr ct, dStr ce, dOpt dStr dec, d_sb sb, dOpt d_ast ast, dB berr with
+      | Some acc, Some m, Some ct, Some ce, Some dec, Some sb, Some ast, Some berr =>
+          let r := mkHReq m ct ce [] berr in
           let decode := fun _ : str => dec in
           let o := match impl with
                    | SL [SZ 0; call] => match dOpt d_call call with Some c => Some (to_hout true 0 None c) | None => None end
@@ -206,7 +206,7 @@ Definition check (s : sx) : Z :=
               | None => both (handler_spec_ok decode acc sb r ast o) (hout_eqb (serve decode acc sb r) o)
               end
           end
-      | _, _, _, _, _, _, _ => code_decode_error
+      | _, _, _, _, _, _, _, _ => code_decode_error
       end
   | SL [SZ 3; h; ast; SZ res] =>
       match dStr h, dOpt d_ast ast with
@@ -270,11 +270,11 @@ Definition explain (s : sx) : sx :=
       | _, _, _, _, _ => SL []
       end
   | SL [SZ 1; SZ n; _; _; _] => SL [SZ (Z.of_nat (length (expected_recv (Z.to_nat n) 0)))]
-  | SL [SZ 2; acc; m; ct; ce; dec; sb; ast; _] =>
-      match dL d_mtype acc, dStr m, dStr ct, dStr ce, dOpt dStr dec, d_sb sb with
-      | Some acc, Some m, Some ct, Some ce, Some dec, Some sb =>
-          SL [e_hout (serve (fun _ => dec) acc sb (mkHReq m ct ce []))]
-      | _, _, _, _, _, _ => SL []
+  | SL [SZ 2; acc; m; ct; ce; dec; berr; sb; ast; _] =>
+      match dL d_mtype acc, dStr m, dStr ct, dStr ce, dOpt dStr dec, d_sb sb, dB berr with
+      | Some acc, Some m, Some ct, Some ce, Some dec, Some sb, Some berr =>
+          SL [e_hout (serve (fun _ => dec) acc sb (mkHReq m ct ce [] berr))]
+      | _, _, _, _, _, _, _ => SL []
       end
   | SL [SZ 3; h; ast; _] =>
       match dStr h, dOpt d_ast ast with
